@@ -56,6 +56,7 @@ type Contract struct {
 	PanicsKeep []string // ghost prefixes that must be unchanged at every panic site
 	Keeps      []string // ghost prefixes opaque callees of this function are assumed not to touch
 	ModAll     bool     // modifies everything: no frame obligation; callers havoc argument referents and all ghosts
+	MayExit    bool     // reaching os.Exit / log.Fatal is accepted (start-up and configuration code)
 	Scope      string   // extern/iface contract valid only for callers in this package (relative path)
 	Unguarded  bool     // constructor: the object is not shared yet, guarded fields may be written without the lock
 }
@@ -103,7 +104,7 @@ type GuardDecl struct {
 	Fields           []string
 }
 
-var kwRe = regexp.MustCompile(`^(requires|ensures|modifies|panics|may_panic|unguarded|scope|keeps|define|panics_keep|panics_declared|loop|mode|extern|assumed|pure|props|noinline|uses|iface|hint|trigger|dead|same_as|instance)\b`)
+var kwRe = regexp.MustCompile(`^(requires|ensures|modifies|panics|may_panic|may_exit|unguarded|scope|keeps|define|panics_keep|panics_declared|loop|mode|extern|assumed|pure|props|noinline|uses|iface|hint|trigger|dead|same_as|instance)\b`)
 
 // parseContractFile reads //@ lines. pkgPath is the import path the file belongs to
 // (can be overridden by a `//@ package <path>` line for extern contract files).
@@ -254,6 +255,9 @@ func parseContractFile(path, pkgPath string) (*ContractFile, error) {
 		kw := kwRe.FindString(text)
 		rest := strings.TrimSpace(text[len(kw):])
 		switch kw {
+		case "may_exit":
+			cur.MayExit = true
+			last = nil
 		case "may_panic":
 			cur.MayPanic = true
 			last = nil
